@@ -64,6 +64,7 @@ type Contract struct {
 	HasLemmaList bool
 	FreshOnly    []string // heaps (names or prefix*) in which only objects allocated during the call change, whatever else the function does
 	NoCalls      []string // callees (plain or Interface.Method names) this function must not call itself
+	SuffixSplit  bool   // case split over bounded-depth path suffixes when the function has too many whole paths
 	StepFrames   bool   // prove (and then use) the frame relative to function entry after every call (long call chains)
 	ClosedWorld  bool   // interface contract: every implementation in the module is verified against it
 	Implements   string // "Iface.Method": the interface contract this method must also satisfy (behavioural subtyping)
@@ -131,7 +132,7 @@ type ContractSet struct {
 var clauseKeywords = map[string]bool{
 	"func": true, "spec": true, "extern": true, "iface": true, "closure": true, "callback": true, "requires": true, "ensures": true,
 	"loop": true, "modifies": true, "inline": true, "noinline": true, "trusted": true, "pure": true, "lemma": true,
-	"axiom": true, "ghost": true, "type": true, "opaque": true, "noreturn": true, "replay": true, "recspec": true, "uspec": true, "uses": true, "nilable": true, "implements": true, "closedworld": true, "stepframes": true, "freshonly": true, "nocall": true, "typedheap": true, "lemmas": true, "immutable": true, "atcall": true,
+	"axiom": true, "ghost": true, "type": true, "opaque": true, "noreturn": true, "replay": true, "recspec": true, "uspec": true, "uses": true, "nilable": true, "implements": true, "closedworld": true, "stepframes": true, "suffixsplit": true, "freshonly": true, "nocall": true, "typedheap": true, "lemmas": true, "immutable": true, "atcall": true,
 }
 
 var propsRe = regexp.MustCompile(`^\[((?:C[0-9]+)(?:\s*,\s*C[0-9]+)*)\]\s*`)
@@ -427,6 +428,10 @@ func (cs *ContractSet) LoadFile(path, pkgPath string) {
 		case "stepframes":
 			if cur != nil {
 				cur.StepFrames = true
+			}
+		case "suffixsplit":
+			if cur != nil {
+				cur.SuffixSplit = true
 			}
 		case "closedworld":
 			if cur != nil {
